@@ -11,9 +11,11 @@ Import ListNotations.
 Open Scope Z_scope.
 
 (* literal helper for the generated case files *)
-Definition T (k : dkind) (shapes : list shape) (v : Z) : tbl := {| t_kind := k; t_shapes := shapes; t_val := Z.to_pos v |}.
+Definition T (k : dkind) (shapes : list shape) (v : Z) : tbl := {| t_kind := k; t_shapes := shapes; t_ser := true; t_val := Z.to_pos v |}.
+(* the same with an entry json.dumps rejects *)
+Definition TX (k : dkind) (shapes : list shape) (v : Z) : tbl := {| t_kind := k; t_shapes := shapes; t_ser := false; t_val := Z.to_pos v |}.
 
-Definition oc_code (o : outcome) : Z := match o with Done => 0 | ErrValue => 1 end.
+Definition oc_code (o : outcome) : Z := match o with Done => 0 | ErrValue => 1 | ErrType => 3 end.
 Definition res_code (r : option val) : Z := match r with Some v => Zpos v | None => 0 end.
 
 Fixpoint zlist_eqb (a b : list Z) : bool :=
